@@ -61,12 +61,12 @@ CHECKS = {
    ref="5/C20"),
  "C15": dict(
    technique="runtime monitoring: round-trip differential on stores reached by seeded histories through the STAM CSV files (manifest, annotations table, dataset tables, .txt resources) - canonical observation with values reduced to their text",
-   text="Final states of seeded histories (all selector kinds incl. complex selectors with mixed and range-compressed sub-selectors, end-aligned and relative offsets, gaps, ids without ';') are saved as STAM CSV and loaded again; resources and texts, keys, data ids and value text, annotation ids, data references, targets (kinds, referenced items, absolute ranges, selected text) and every reverse lookup must be equal. Held on the stores observed; the two temp-id findings are recorded.",
+   text="Final states of seeded histories (all selector kinds incl. complex selectors with mixed and range-compressed sub-selectors, end-aligned and relative offsets, gaps, ids without ';') are saved as STAM CSV and loaded again; resources and texts, keys, data ids and value text, annotation ids, data references, targets (kinds, referenced items, absolute ranges, selected text) and every reverse lookup must be equal. Every third store is instead saved, changed by 1-3 more operations (removal of keys without data first of all), saved again to the same files and loaded: keys, data and texts must have followed. Held on the stores observed; the two temp-id findings are recorded.",
    note="Trusted: obs.rs in value-as-text mode. On stores with gaps, differences in *references* are attributed to the recorded temporary-id finding; stores without gaps are compared in full.",
    ref="5/C15"),
  "C06": dict(
    technique="runtime oracle monitor: brute-force differential - every related_text entry point vs a scan of all known selections with the public test(), on seeded geometries, for all 92 operator x modifier variants",
-   text="Seeded texts with whitespace runs and 4-14 known selections (nested, crossing, adjacent, zero-width, touching both ends, both halves); references are single selections, their annotations and sets of 2-3 selections; each of the 92 operator/modifier variants is searched through ResultTextSelection, ResultItem<Annotation>, ResultTextSelectionSet and ResultItem<TextResource> related_text and compared as a multiset with the brute-force answer. Held on the geometries observed.",
+   text="Seeded texts with whitespace runs and 4-14 known selections (nested, crossing, adjacent, zero-width, touching both ends, both halves); references are single selections, their annotations, sets of 2-3 selections and iterators of 1-3 selections (the adaptor: related to any of them); each of the 92 operator/modifier variants is searched through ResultTextSelection, ResultItem<Annotation>, ResultTextSelectionSet and ResultItem<TextResource> related_text and compared as a multiset with the brute-force answer. Held on the geometries observed.",
    note="Trusted: the library's own test()/test_set() as oracle (judged by C13). References are bound selections. RELATION constraints in queries are exercised in C08.",
    ref="5/C06"),
  "C07": dict(
